@@ -20,7 +20,7 @@ func (c12) Level() string { return "exploration" }
 func (c12) Procs() int    { return 2 }
 func (c12) Budget(tier string) (int, int) {
 	if tier == "thorough" {
-		return 80000000, 420
+		return 800000000, 420
 	}
 	return 80000, 90
 }
